@@ -1,16 +1,17 @@
 #!/usr/bin/env python3
-"""selftest.py [--only <substring>] [--jobs N]
+"""selftest.py [--only <substring>] [--expect pass|fail] [--jobs N]
 Applies every /verif/selftest/*.patch to a scratch copy of /repo's working tree
 (outside /repo and /verif), runs the property's quick check there and compares
 with the expectation (must-fail mutants must raise a violation, must-pass edits
 must verify). Scratch copies are removed as soon as each patch is done."""
 import sys, os, subprocess, tempfile, shutil, json, glob, concurrent.futures, time
 V = "/verif"
-only = None; jobs = 4
+only = None; jobs = 4; expect = None
 args = sys.argv[1:]
 while args:
     a = args.pop(0)
     if a == "--only": only = args.pop(0)
+    if a == "--expect": expect = args.pop(0)
     elif a == "--jobs": jobs = int(args.pop(0))
 def run(meta):
     name = meta["name"]
@@ -43,6 +44,8 @@ metas = []
 for f in sorted(glob.glob(os.path.join(V, "selftest", "*.json"))):
     m = json.load(open(f))
     if only and only not in m["name"] and only != m["property"]:
+        continue
+    if expect and m["expect"] != expect:
         continue
     metas.append(m)
 bad = 0
